@@ -380,15 +380,13 @@ def mutate_case(rng, case):
 
 
 CLAIMED = True
-LEVEL_TEXT = ("Line-AST level. Theorems (all gate names, operand lists, valuations / all well-formed line lists in any line order): the regenerated "
-              "gate-name alternation with BUFF and case folding is exactly the documented dialect; the node handed to Circuit.add for a gate line computes "
-              "the gate over its operand list with multiplicities (parity cancellation proved for all lists: XOR(a,a)=0, XNOR(a,a)=1; idempotent gates for "
-              "all lists); the closed form of the reader's result has exactly the declared inputs and outputs, every consistent valuation of it solves all "
-              "equations of the text and every solution extends to a consistent valuation, and each DFF line is a registered dff instance between its D and Q "
-              "nets; for every lint-clean blackbox-/pin-/x-free identifier-named circuit and every set order, the writer's line list is well-formed and its "
-              "closed-form reading is the circuit itself (constants included). Kept as the one unproved full statement and decided per generated case in "
-              "Coq: that the mirrored four-pass reader (construction API, reader's pass order) returns the closed form; the full reader and round-trip "
-              "theorems are proved under that hypothesis (_partial).")
+LEVEL_TEXT = ("Line-AST level, full strength. Theorems (all line lists / circuits / set orders / valuations): the regenerated gate-name alternation with "
+              "BUFF and case folding is exactly the documented dialect; parity cancellation and idempotence for all operand lists; for every well-formed "
+              "line list in any order the mirrored four-pass reader (every step through the construction-API model with all its checks) succeeds, the "
+              "result has exactly the declared inputs and outputs, a valuation solves the text's equations iff it extends to a consistent valuation of "
+              "the result, and each DFF is a registered dff instance between its D and Q nets (C15_bench_read_denotes); for every lint-clean "
+              "blackbox-/pin-/x-free identifier-named circuit with an input and every set order, writer and reader succeed and the read-back circuit is "
+              "the circuit itself, constants included (C15_bench_roundtrip).")
 LEVEL_NOTE = ("Trusted: Coq kernel + vm_compute, std++, Base/Api.v as a model of Circuit.add/connect/add_blackbox (validated by C07), translator shapes "
               "for io.py (skeleton comparison, fail closed; the scan patterns are compared literally with the documented ones), the harness renderer "
               "and tokeniser. The character-level scanning layer (re.findall with the four patterns) is NOT modelled: it is tied by correspondence only, "
